@@ -3394,13 +3394,26 @@ fn evaluate_scalar_func(
                 .as_any()
                 .downcast_ref::<StringArray>()
                 .ok_or_else(|| QueryError::Type("FROM_BASE requires string argument".into()))?;
-            let radix = get_int_value(&evaluated_args[1], 0).unwrap_or(10) as u32;
-
-            let result: Int64Array = str_arr
-                .iter()
-                .map(|opt| opt.and_then(|s| i64::from_str_radix(s, radix).ok()))
-                .collect();
-            Ok(Arc::new(result))
+            // The radix is an ordinary per-row argument; `from_str_radix` panics
+            // outside 2..=36, so it is validated first.
+            let radix_arr = &evaluated_args[1];
+            let mut out: Vec<Option<i64>> = Vec::with_capacity(str_arr.len());
+            for i in 0..str_arr.len() {
+                if str_arr.is_null(i) || radix_arr.is_null(i) {
+                    out.push(None);
+                    continue;
+                }
+                let radix = get_int_value(radix_arr, i).ok_or_else(|| {
+                    QueryError::Type("FROM_BASE requires an integer radix".into())
+                })?;
+                if !(2..=36).contains(&radix) {
+                    return Err(QueryError::InvalidArgument(format!(
+                        "FROM_BASE radix must be between 2 and 36, got {radix}"
+                    )));
+                }
+                out.push(i64::from_str_radix(str_arr.value(i), radix as u32).ok());
+            }
+            Ok(Arc::new(Int64Array::from(out)))
         }
 
         ScalarFunction::ToBase => {
